@@ -62,6 +62,16 @@ fn alpha_for(quick: bool) -> Vec<Op> {
         v.push(wrap(sgr1(u), SP7));
     }
     v.push(wrap(Sgr(vec![vec![Some(4), Some(3)]]), SP7));
+    // sequences that end in `m` but are not SGR (a private marker or an intermediate makes
+    // them something else, which this terminal does not implement): the pen stays as it is
+    for s in ["\x1b[>4;2m", "\x1b[?4m", "\x1b[=1m", "\x1b[<31m", "\x1b[>m", "\x1b[>4;0m", "\u{9b}?1;31m", "\x1b[1 m", "\x1b[31$m", "\u{9b}0!m"] {
+        v.push(Op {
+            kind: Kind::Feed,
+            cmd: Seq(vec![Inert(s.to_string()), Cr, Text("x".into()), El(None)]),
+            text: format!("{}\rx\x1b[K", s),
+            levels: 0,
+        });
+    }
     v
 }
 
